@@ -169,6 +169,10 @@ def guard(F, rep, fns):
                         uses.append(b2)
                     if rv["r"] == "agg" and rv.get("adt", "").endswith("PyRange"):
                         uses.append(b2)
+                t2 = blk["term"]
+                if t2["t"] == "call" and int_method(t2) and \
+                        "step" in [operand_name(f, o) for o in t2["args"]]:
+                    uses.append(b2)
             dominated = all(u in false_dom for u in uses)
             if errs and uses and dominated:
                 ok_any = True
@@ -368,7 +372,41 @@ def overflow(F, rep, fns):
                                     "are built with it wraps: wrong extra elements or a non-terminating loop for "
                                     "arguments near the i64 limits" % (expr, short, why), file=f.file,
                                     line=s.get("ln"), fn=f.path))
+        # explicit-overflow-policy methods: saturating_* / checked_* cannot wrap; wrapping_* / overflowing_* / unchecked_*
+        # wrap by definition
+        for bi, t in f.calls():
+            m = int_method(t)
+            if not m:
+                continue
+            a = operand_name(f, t["args"][0]) if t["args"] else "?"
+            bname = operand_name(f, t["args"][1]) if len(t["args"]) > 1 else "?"
+            expr = "%s.%s(%s)" % (a, m, bname)
+            per[expr] = per.get(expr, 0) + 1
+            n += 1
+            safe = m.startswith("saturating_") or m.startswith("checked_")
+            inst = "%s|%s#%d" % (short, expr, per[expr])
+            rep.oblige("OVERFLOW", inst, safe, sample={"rule": "OVERFLOW", "fn": name, "expr": expr,
+                                                       "line": t.get("ln"), "safe": safe,
+                                                       "why": "method with an explicit overflow policy"})
+            if not safe:
+                rep.add(Finding("OVERFLOW", "OVERFLOW|%s" % inst,
+                                "`%s` in %s wraps on overflow by definition: wrong extra elements or a non-terminating "
+                                "loop for arguments near the i64 limits" % (expr, short), file=f.file,
+                                line=t.get("ln"), fn=f.path))
     rep.floor("OVERFLOW", "i64 add/sub/mul sites in the kernels", n, 14)
+
+
+INT_METHODS = tuple(p + o for p in ("saturating_", "checked_", "wrapping_", "overflowing_", "unchecked_")
+                    for o in ("add", "sub", "mul"))
+
+
+def int_method(t):
+    """name of the i64 overflow-policy method a call terminator resolves to, else None"""
+    g = callee_generic(t) or ""
+    last = g.split("::")[-1]
+    if last in INT_METHODS and "core::num::" in g and "i64" in (t["f"].get("self") or g):
+        return last
+    return None
 
 
 LEN_NAMES = ("len", "len_i")
